@@ -80,7 +80,9 @@ def build_classes(kinds, se, deps=()):
     _declared.clear()
     _hyb.clear()
     for i, k in enumerate(kinds):
-        name = "N%d" % i
+        # every name is a proper prefix of the names of the later nodes (N0, N0q, N0qq, ...): a class is told from another by its
+        # whole name, wherever text is searched for names
+        name = "N0" + "q" * i
         if k in ("S", "H"):
             # several distinct leaf types (they are nodes of the dependency graph too, without an API of their own)
             fields = {"x": xo.Int64, "y": xo.Float64, "z": xo.Int8, "w": xo.UInt16}
